@@ -37,7 +37,7 @@ func (o *Ob) Key() string { return o.Prop + "|" + o.Rule + "|" + o.Construct }
 
 // Ctx is the per-property checking context.
 type Ctx struct {
-	alias map[string]string
+	alias    map[string]string
 	P        *Prog
 	Prop     string
 	Tier     string
@@ -146,7 +146,7 @@ func (c *Ctx) Floor(rule string, n int) {
 	}
 }
 
-func (c *Ctx) Assume(s string)              { c.assume = append(c.assume, s) }
+func (c *Ctx) Assume(s string)                 { c.assume = append(c.assume, s) }
 func (c *Ctx) Note(f string, a ...interface{}) { c.notes = append(c.notes, fmt.Sprintf(f, a...)) }
 
 // ---------------------------------------------------------------- findings
@@ -227,6 +227,9 @@ func (c *Ctx) finish(verifDir string, seed int, start time.Time, only string, wr
 		switch o.Verdict {
 		case Discharged:
 			disch++
+			if os.Getenv("VERIF_LIST") != "" {
+				fmt.Printf("  OK rule=%s construct=%s: %s\n", o.Rule, o.Construct, o.Detail)
+			}
 		case Violated, Undecided:
 			if f, ok := open[o.Key()]; ok && o.Verdict == Violated {
 				o.Verdict = Known
